@@ -6,3 +6,6 @@ import "github.com/openGemini/openGemini/lib/util/lifted/vm/mergeset"
 
 // VerifC13Table returns the mergeset table of the index, for the C13 purge correspondence harness of /verif.
 func (idx *MergeSetIndex) VerifC13Table() *mergeset.Table { return idx.tb }
+
+// VerifC13TagSeparator is the byte that ends the marshaled tag key and the marshaled tag value of a tag->tsids item.
+const VerifC13TagSeparator = tagSeparatorChar
